@@ -552,6 +552,122 @@ def reinstall_obligations(repo, chk, rule, why):
                f"after the counts changed, {m} installs the variant selected for the new counts on every normal path: {why}")
 
 
+def scratch_maker_obligations(repo, chk, rule, why):
+    """transform(): exec() leaves the closure factory `#WRAP` in the module's globals; the branch that finds it there removes it as the very
+    first thing it does (the pop is the first call executed: `glb.pop("#WRAP")(<cells>)` evaluates the callee before the arguments).  If reading
+    the cells (an empty cell: ValueError) or anything else could fail first, the factory stays behind and every later instrumentation of a
+    plain function of that module takes the closure branch."""
+    import ast
+    from ..core import norm, walk_local
+
+    def first_call(e):
+        """the first call executed when e is evaluated (callee before arguments, left to right)"""
+        if isinstance(e, ast.Call):
+            for sub in [e.func] + list(e.args) + [k.value for k in e.keywords]:
+                r = first_call(sub.value if isinstance(sub, ast.Starred) else sub)
+                if r is not None:
+                    return r
+            return e
+        if isinstance(e, (ast.Lambda, ast.FunctionDef)):
+            return None
+        for c in ast.iter_child_nodes(e):
+            if isinstance(c, ast.expr):
+                r = first_call(c)
+                if r is not None:
+                    return r
+            elif isinstance(c, ast.comprehension):
+                r = first_call(c.iter)
+                if r is not None:
+                    return r
+        return None
+    tr = repo.func("transform.transform")
+    tests = [n for n in walk_local(tr.node) if isinstance(n, ast.If) and isinstance(n.test, ast.Compare) and isinstance(n.test.ops[0], ast.In)
+             and isinstance(n.test.left, ast.Constant) and n.test.left.value == "#WRAP"]
+    ok, found = False, "no `'#WRAP' in <globals>` branch"
+    if len(tests) == 1 and tests[0].body:
+        st = tests[0].body[0]
+        val = st.value if isinstance(st, (ast.Assign, ast.Expr, ast.Return)) else None
+        fc = first_call(val) if val is not None else None
+        found = norm(fc)[:50] if fc is not None else f"`{norm(st)[:50]}`"
+        risky = val is not None and any(isinstance(n, ast.Attribute) and n.attr == "cell_contents" for n in ast.walk(val)) and fc is None
+        ok = fc is not None and isinstance(fc.func, ast.Attribute) and fc.func.attr == "pop" and fc.args and isinstance(fc.args[0], ast.Constant) and fc.args[0].value == "#WRAP" and not risky
+    chk.ob(rule, "transform.transform:scratch-maker-removed-before-anything-can-fail", ok, tr.where,
+           f"the branch that finds the closure factory `#WRAP` in the globals pops it before it evaluates anything else (first call executed there: {found}): {why}")
+
+
+def registry_order_obligations(repo, chk, rule, why):
+    """Every `X.__code__ = new` of the run-time modules is preceded on every path by the codefind registry update for the same function and
+    code (the registry must learn the move while X still runs the old code: update_cache_entry(X, X.__code__, new) reads the old code from X)."""
+    from .c14 import OUT_OF_SCOPE, code_stores, registry_dominates
+    from ..core import norm
+    n = 0
+    for q, fi in sorted(repo.functions.items()):
+        if q in OUT_OF_SCOPE:
+            continue
+        for st, tgt, val in code_stores(fi.node):
+            n += 1
+            ok, why_ = registry_dominates(fi.node, st, tgt.value, val)
+            chk.ob(rule, f"{q}:store[{norm(st)}]", ok, fi.where,
+                   f"`{norm(st)}` is preceded on every path by the registry update for the same function and code: {why}" + (f" -- {why_}" if not ok else ""))
+    if n == 0:
+        chk.ob(rule, "package:code-stores-found", False, "ptera/", "no `X.__code__ = ..` store found (the variant installation vanished)")
+
+
+def contextmanager_release_obligations(repo, chk, rule, why):
+    """The @contextmanager generators of overlay.py that enter an overlay or set the handler ContextVar release it on the exception edge of
+    their `yield` too (the block they wrap may be left by any exception -- StopIteration from an exhausted generator included)."""
+    import ast
+    from ..callgraph import CallGraph
+    from ..core import call_name, norm
+    from ..pairing import contextvars_of, rollback_findings
+    from .c05 import acquire_functions
+    cg = CallGraph(repo)
+    ctxvars = contextvars_of(repo)
+    n = 0
+    acq = {fi.qual: wrap for fi, wrap in acquire_functions(repo, ctxvars, cg)}
+    for q, fi in sorted(repo.functions.items()):
+        if not (q.startswith("overlay.") and any(isinstance(x, (ast.Yield, ast.YieldFrom)) for x in ast.walk(fi.node))
+                and any(norm(d).endswith("contextmanager") for d in fi.node.decorator_list)):
+            continue
+        if q in acq:
+            n += 1
+            sites, findings = rollback_findings(fi, cg, ctxvars, acq[q])
+            bad = sorted({f"{res} after `{a_[:40]}` when `{culprit[:30]}` raises" for res, a_, culprit, path in findings})
+            chk.ob(rule, f"{q}:released-when-the-block-raises", not bad and sites > 0, fi.where,
+                   f"{q} gives back what it installed on every way out of the block, exceptions included ({sites} acquire site(s)): {why}" + (f" -- {bad}" if bad else ""))
+        else:
+            # nothing is acquired by a plain statement: the yield sits inside `with <overlay>:` (the with statement releases on every way out)
+            ys = [x for x in ast.walk(fi.node) if isinstance(x, (ast.Yield, ast.YieldFrom))]
+            def in_with(y):
+                cur = getattr(y, "_parent", None)
+                while cur is not None and cur is not fi.node:
+                    if isinstance(cur, ast.With):
+                        return True
+                    cur = getattr(cur, "_parent", None)
+                return False
+            if ys and all(in_with(y) for y in ys):
+                n += 1
+                chk.ob(rule, f"{q}:released-when-the-block-raises", True, fi.where, f"{q} yields inside a `with` statement that owns the overlay: {why}")
+    chk.ob(rule, "overlay:context-manager-generators-found", n >= 2, "ptera/overlay.py", f"{n} @contextmanager generators that install handlers analysed (tapping, no_overlay ...)")
+
+
+def installs_selected_variant_obligations(repo, chk, rule, why):
+    """SyncedStackedTransforms._apply installs the code object that was recorded when the selected variant was registered (second component of
+    the registered tuple), not whatever the variant function object runs now: the entry under None records the target function itself, whose
+    current code is the variant being replaced."""
+    import ast
+    from ..astq import facts_of
+    from ..core import norm, walk_local
+    ap = repo.func("transform.SyncedStackedTransforms._apply")
+    fap = facts_of(ap)
+    fnp = ap.node.args.args[1].arg
+    unpack = [n for n in walk_local(ap.node) if isinstance(n, ast.Assign) and norm(n.value) == "self.get()" and isinstance(n.targets[0], ast.Tuple) and len(n.targets[0].elts) == 4]
+    parts = [norm(e) for e in unpack[0].targets[0].elts] if len(unpack) == 1 else [None] * 4
+    chk.ob(rule, "transform.SyncedStackedTransforms._apply:installs-selected-variant",
+           len(unpack) == 1 and fap.has(f"{fnp}.__code__ = {parts[1]}", exactly=[]) and fap.has(f"{fnp}.__ptera_info__ = {parts[2]}", exactly=[]), ap.where,
+           f"_apply installs the recorded code and info of the variant selected by get(): {why}")
+
+
 def fit_memo_obligations(repo, chk, rule, why):
     """HandlerCollection.proceed: whether a function fits a selector level is remembered under the key (function object, selector) -- not under
     its name, its id() (recycled once the function is collected) or anything else several functions can share."""
